@@ -362,7 +362,12 @@ def _nest_twins(rng, seed, i):
 # length decodes to *something*); only the bitmap bits are placed, which needs nothing but the
 # Table B widths of the operator-free prefix. No ground truth: these serve differential oracles
 # (history vs fresh process, compiled vs interpreted), after admission by a lone decode.
-def gen_operator_spec(rng, version=None, rv=None, force_n=None, perm=False):
+OPERATOR_KINDS = ['bitmap', 'bitmap', 'bitmap', 'plain-ops', 'plain-ops', 'plain-ops', 'bitmap-blocks',
+                  'bitmap-blocks', 'seq-ops', 'seq-ops', 'wide', 'bitmap+203', 'bitmap+204', 'bitmap+dbm',
+                  'bitmap+dbm', 'plain-ops+221', 'bitmap+qar', 'bitmap+qam', 'plain-ops+inner', 'bitmap+lead']
+
+
+def gen_operator_spec(rng, version=None, rv=None, force_n=None, perm=False, kind=None):
     """`rng` decides the PROGRAM (descriptor list); `rv` decides the DATA CONTENT (values, delayed
     replication factors, arrangement of the bitmap bits): the same rng seed with another rv gives the
     same descriptor list with other data. force_n fixes the delayed replication factor."""
@@ -381,9 +386,8 @@ def gen_operator_spec(rng, version=None, rv=None, force_n=None, perm=False):
     def rnd(n):
         bits.add(rv.getrandbits(n) if n else 0, n)
 
-    kind = rng.choice(['bitmap', 'bitmap', 'bitmap', 'plain-ops', 'plain-ops', 'bitmap-blocks', 'bitmap-blocks',
-                       'seq-ops', 'wide', 'bitmap+203', 'bitmap+204', 'bitmap+dbm', 'bitmap+dbm', 'plain-ops+221',
-                       'bitmap+qar', 'bitmap+qam'])
+    drawn = rng.choice(OPERATOR_KINDS)
+    kind = kind or drawn        # a caller may fix the kind (stratified pools); the draw is made either way
     # feature interactions of the bitmap programs: '+203' - new reference values (203YYY) defined for an element
     # the bitmap refers to, cancelled before the bitmap operator or still in force at the marker operators;
     # '+204' - an associated field (204YYY) in force at the marker operators; '+dbm' - the bits of the bitmap
@@ -401,6 +405,9 @@ def gen_operator_spec(rng, version=None, rv=None, force_n=None, perm=False):
             r = rng.random()
             if kind == 'plain-ops+221' and gi == 0:
                 r = 0.99            # 221YYY (data not present) for certain
+            force_inner = kind == 'plain-ops+inner' and gi == 0
+            if force_inner:
+                r = r * 0.45        # 201 / 202 / 207 with a delayed replication inside its scope, for certain
             if r < 0.15:
                 g += [201000 + rng.choice([126, 127, 129, 130, 132]), rng.choice(nums), rng.choice(nums), 201000]
             elif r < 0.30:
@@ -448,10 +455,10 @@ def gen_operator_spec(rng, version=None, rv=None, force_n=None, perm=False):
                      [rng.choice(els) for _ in range(y - 1)]
             # a replication INSIDE the operator's scope (opened and closed at the same level around it):
             # 201YYY / 202YYY / 207YYY e (1XX00n | 1XX000 031001) e.. e 20X000
-            if r < 0.45 and rng.random() < 0.35:
+            if r < 0.45 and (force_inner or rng.random() < 0.35):
                 opn, cls = g[0], g[-1]
                 inner = [rng.choice(nums) for _ in range(rng.randint(1, 2))]
-                if gi == 0 and not ids and rng.random() < 0.6:
+                if gi == 0 and not ids and (force_inner or rng.random() < 0.6):
                     # delayed: only as the first data item, where the factor's bits are known (the operator
                     # may widen the factor: 16 bits of which only the low two are set keep every reading small)
                     n = rv.choice([0, 1, 2, 3]) if force_n is None else force_n
@@ -483,7 +490,7 @@ def gen_operator_spec(rng, version=None, rv=None, force_n=None, perm=False):
         # a delayed replication BEFORE the elements the bitmap refers to: the layout in front of the bitmap
         # then differs from one data content to the next (and from subset to subset in the multi-subset
         # variants), and the bitmap window may reach into the replicated part
-        lead = rng.random() < 0.35 and 31001 in b
+        lead = (rng.random() < 0.35 or variant == 'lead') and 31001 in b
         if lead:
             e0 = rng.choice(nums)
             n = rv.choice([0, 1, 2, 3]) if force_n is None else force_n
@@ -799,9 +806,13 @@ def exhibit_messages():
 def operator_messages(seed, n):
     rng = random.Random(seed)
     out = []
+    # stratified: the kinds take turns (in a seeded order), so that a pool of a few dozen programs holds every kind
+    order = list(OPERATOR_KINDS)
+    random.Random(seed ^ 0x5bd1e995).shuffle(order)
     for i in range(n):
         ps = rng.getrandbits(48)          # the program
-        spec = gen_operator_spec(random.Random(ps))
+        pkind = order[i % len(order)]
+        spec = gen_operator_spec(random.Random(ps), kind=pkind)
         msg, _truth = bufrgen.write_message(spec)
         if msg.find(b'BUFR', 1) >= 0:
             continue
@@ -825,12 +836,12 @@ def operator_messages(seed, n):
         # 'data twins': the SAME program with other data contents - every delayed replication factor in
         # 0..3, other arrangements of the bitmap bits, other values - so that one cached compiled template
         # is executed on different data in one history
-        if i % 2 == 0 and (spec['has_factor'] or spec['has_bitmap'] or i % 6 == 0) and spec['opkind'] != 'seq-ops':
+        if (ps >> 3) % 2 == 0 and (spec['has_factor'] or spec['has_bitmap'] or i % 6 == 0) and spec['opkind'] != 'seq-ops':
             variants = [{'force_n': k} for k in range(4)] if spec['has_factor'] else [{}, {}]
             seen = set([msg])
             for j, kw in enumerate(variants):
                 sp2 = gen_operator_spec(random.Random(ps), rv=random.Random(ps * 31 + j + 1),
-                                        perm=spec['has_bitmap'], **kw)
+                                        perm=spec['has_bitmap'], kind=pkind, **kw)
                 assert sp2['raw_ids'] == spec['raw_ids'], 'data variants must not change the program'
                 m2, _t = bufrgen.write_message(sp2)
                 if m2 in seen or m2.find(b'BUFR', 1) >= 0:
